@@ -236,7 +236,11 @@ fn case_desc(c: &Case) -> J {
     d
 }
 
-fn run_case(c: &Case, st: &mut Stats, want: bool) -> CaseOut {
+fn ctx_known_thin(known: &crate::known::Known) -> bool {
+    known.active("C09", "thin-piece-orientation-flip")
+}
+
+fn run_case(c: &Case, st: &mut Stats, want: bool, known: &crate::known::Known) -> CaseOut {
     let mut co = CaseOut::default();
     co.hash = crate::prng::hash_str(&format!("{:?}{:?}{:?}", c.path, c.style, c.t));
     let subs = subpaths(&c.path, 1);
@@ -321,7 +325,9 @@ fn run_case(c: &Case, st: &mut Stats, want: bool) -> CaseOut {
     st.add("px_near_boundary_not_asserted", res.skipped);
     st.add("dash_pieces_modelled", model.pieces.len() as u64);
     co.nontrivial = res.inside > 0 && res.outside > 0 && !model.pieces.is_empty();
-    if let Some(v) = res.violation {
+    if res.violation.is_some() && res.only_thin_piece_pinholes && ctx_known_thin(known) {
+        co.known.push(("C09:thin-piece-orientation-flip".to_string(), res.violation.clone().unwrap()));
+    } else if let Some(v) = res.violation {
         co.viol("C09", format!("{} (the pattern gives {} pieces, {:.2} px on)", v.replace("stroke region", "dashed stroke region"), model.pieces.len(), model.on_length));
     }
     if want || !co.violations.is_empty() {
@@ -355,6 +361,20 @@ fn directed() -> Vec<Case> {
     let two = vec![PathOp::MoveTo(p(4., 10.)), PathOp::LineTo(p(44., 10.)), PathOp::MoveTo(p(4., 30.)), PathOp::LineTo(p(44., 30.))];
     v.push(mk(two.clone(), vec![7., 3., 5.], -4., 48, 40, LineCap::Butt, LineJoin::Miter, 6.));
     v.push(mk(two, vec![9.], 100.5, 48, 40, LineCap::Round, LineJoin::Round, 6.));
+    // the known thin-piece finding: a 0.2 px long dash piece in front of a wide mitered corner
+    let mut thin = mk(
+        vec![PathOp::MoveTo(p(5.0773845, 12.661057)), PathOp::LineTo(p(8.768452, 1.5659913)), PathOp::LineTo(p(16.481533, -1.9839377)), PathOp::MoveTo(p(10.738104, -1.8427455)), PathOp::LineTo(p(10.006929, 12.560599)), PathOp::LineTo(p(13.331169, 14.183349)), PathOp::LineTo(p(16.240944, 6.865765))],
+        vec![16.13913, 1.8095335, 4.3738565, 15.354441, 16.967087],
+        313.63837,
+        16,
+        13,
+        LineCap::Butt,
+        LineJoin::Miter,
+        10.521669,
+    );
+    thin.style.miter_limit = 2.0;
+    thin.t = Transform::new(1.0, -0.46260524, -0.16476995, 1.0, 1.0710049, 3.700842);
+    v.push(thin);
     // corner-spanning dash keeps its join
     let ell = vec![PathOp::MoveTo(p(8., 8.)), PathOp::LineTo(p(36., 8.)), PathOp::LineTo(p(36., 36.))];
     v.push(mk(ell, vec![20., 10.], -18., 46, 46, LineCap::Butt, LineJoin::Miter, 8.));
@@ -368,11 +388,11 @@ pub fn run(ctx: &Ctx) -> Outcome {
          The private dash_path is checked directly (hook): emitted on-length equals the pattern's, every emitted point lies on the input path, number of connected pieces matches. Cases with a dash boundary within 0.02 px of a vertex are skipped unless caps and joins are both Round. Non-trivial: inside and outside pixels asserted and at least one piece; distinct = hash of the case.",
     );
     let d = directed();
-    run_cases(ctx, &mut out, SubSpec { name: "directed", cases: d.len() as u64, exhaustive: false, max_secs: 60. }, |i, want, st| run_case(&d[i as usize], st, want));
+    run_cases(ctx, &mut out, SubSpec { name: "directed", cases: d.len() as u64, exhaustive: false, max_secs: 60. }, |i, want, st| run_case(&d[i as usize], st, want, &ctx.known));
     run_cases(ctx, &mut out, SubSpec { name: "dashed_strokes", cases: ctx.n(30_000, 800_000), exhaustive: false, max_secs: if ctx.quick() { 40. } else { 900. } }, |i, want, st| {
         let mut rng = ctx.rng("dashed_strokes", i);
         let c = gen_case(&mut rng);
-        run_case(&c, st, want)
+        run_case(&c, st, want, &ctx.known)
     });
     // a pattern whose total is not positive paints nothing
     run_cases(ctx, &mut out, SubSpec { name: "non_positive_total_paints_nothing", cases: ctx.n(2_000, 100_000), exhaustive: false, max_secs: 30. }, |i, want, st| {
